@@ -111,6 +111,7 @@ static void dump()
   printf("\n");
 }
 
+static usize usz(const char* s) { return (usize)strtoull(s, 0, 10); }   // every usize, up to 2^64-1
 static int var(const char* s) { int v = atoi(s); return (v >= 0 && v < nv) ? v : -1; }
 
 static void op(long c, long, vh::Tok& t)
@@ -139,8 +140,8 @@ static void op(long c, long, vh::Tok& t)
   else if(!strcmp(o, "appendb")) vars[v]->append(*vars[w]);
   else if(!strcmp(o, "resize")) vars[v]->resize((usize)atol(t.v[2]));
   else if(!strcmp(o, "reserve")) vars[v]->reserve((usize)atol(t.v[2]));
-  else if(!strcmp(o, "rmfront")) vars[v]->removeFront((usize)atol(t.v[2]));
-  else if(!strcmp(o, "rmback")) vars[v]->removeBack((usize)atol(t.v[2]));
+  else if(!strcmp(o, "rmfront")) vars[v]->removeFront(usz(t.v[2]));
+  else if(!strcmp(o, "rmback")) vars[v]->removeBack(usz(t.v[2]));
   else if(!strcmp(o, "clear")) vars[v]->clear();
   else if(!strcmp(o, "free")) vars[v]->free();
   else if(!strcmp(o, "swap")) vars[v]->swap(*vars[w]);
